@@ -195,7 +195,7 @@ fn gen_spec(ch: &mut Ch) -> Spec {
             limit_changes.push((ch.below(horizon + 1, "o.limit-change.t"), *ch.pick(&[0u8, 1, 2, 3, 10, 255], "o.limit-change.v")));
         }
     }
-    Spec { limit, paths, clients, rounds, limit_changes, mid0: ch.below(65536, "o.mid0") as u16 }
+    Spec { limit, paths, clients, rounds, limit_changes, mid0: if ch.chance(1, 6, "o.mid0.wrap") { 65_500 + ch.below(36, "o.mid0") as u16 } else { ch.below(65536, "o.mid0") as u16 } }
 }
 
 // ---- the world -------------------------------------------------------------
